@@ -36,7 +36,7 @@ MUST_REACH = {"resolutions_checked": 2000, "name_lookups_checked": 1000, "tempor
               "seed_flows": 100, "proxy_only_stripped": 30, "wrapper_caps_checked": 30, "proxy_cap_reregistrations": 30,
               "prefix_related_resolutions": 50, "regranted_names": 30, "old_urls_regranted": 20, "name_lookups_after_consumption_with_survivors": 10, "wrapper_redirects_checked": 30,
               "regions_reannounced": 50, "old_seeds_regranted": 10, "regions_registered_without_seed": 10,
-              "grid_wide_asset_urls_granted": 20, "wrapper_uniqueness_checks": 30}
+              "grid_wide_asset_urls_granted": 20, "wrapper_uniqueness_checks": 30, "clock_advances": 50}
 
 NAMES = ["Seed2", "EventQueueGet", "FetchInventory2", "GetTexture", "GetMesh2", "ViewerAsset", "UpdateScriptAgent",
          "ObjectMedia", "SimulatorFeatures", "UploadBakedTexture"]
@@ -307,6 +307,12 @@ def seed_flow(ctx, rng, rig, m, regions, sessions, wit):
 
 
 def run_sequence(ctx, seed):
+    from ..timeshift import TimeShift
+    with TimeShift() as clock:
+        _run_sequence(ctx, seed, clock)
+
+
+def _run_sequence(ctx, seed, clock):
     rng = random.Random(seed)
     rig = HTTPRig()
     try:
@@ -328,9 +334,14 @@ def run_sequence(ctx, seed):
         for step in range(40):
             m = rng.choice(regions)
             op = rng.choices(["grant", "temp", "proxy", "name", "resolve", "resolve_unrelated", "seedflow", "wrapper",
-                              "regrant_old", "temp_burst", "reregister"], weights=[4, 2, 2, 4, 7, 1, 3, 1, 2, 1, 3])[0]
+                              "regrant_old", "temp_burst", "reregister", "time_passes"], weights=[4, 2, 2, 4, 7, 1, 3, 1, 2, 1, 3, 2])[0]
             wit = {"sequence_seed": seed, "step": step, "op": op, "region": m.idx, "history_tail": history[-6:]}
             history.append((op, m.idx))
+            if op == "time_passes":
+                # a grant does not wear out: minutes, an hour, a day later everything resolves as before
+                clock.advance(rng.choice([61, 601, 3601, 86401]))
+                ctx.count("clock_advances")
+                continue
             if op == "reregister":
                 # the simulator announces the region again (neighbour enabled / teleport / crossing): same circuit address,
                 # a fresh seed, the seed it already has, or one it had earlier (A, B, A)
